@@ -46,4 +46,14 @@ var props = map[string]*propCfg{
 			"race lane: GOMAXPROCS=4; sync.Pool-mediated happens-before edges inside fmt can hide a race (under-reporting) but never invent one; reports whose stacks contain no actionlint frame are ignored",
 		},
 	},
+	"C15": {
+		ID: "C15", Level: "exploration", QuickSecs: 60, ThoroughSecs: 900,
+		Lanes: []lane{{Variant: "", Share: 7}, {Variant: "", Race: true, Share: 1}},
+		Rule: "one evaluation = one virtual repository (at /w/app, nested at /w/app/vendor/sub with or without an enclosing repository, or at /x/y/z/r; optional sibling sharing the name prefix) with 1-3 generated workflows, an actionlint.yaml with 0-3 paths entries (globs that match none/some/all files, and globs that only match when the path is wrongly taken relative to another directory) x 1-3 ignore regexps, 0-2 -ignore flags; executed through Command.Main twice: U = unfiltered from the repository root, F = filtered from a chosen cwd (root, parent, .github, .github/workflows, /, unrelated), spelling (relative, ./, absolute, with ..), mode (files, single file, no argument, failing getwd), output mode (json template, -oneline), under a seeded schedule; distinct = distinct world hash (disk, cwd, arguments); non-trivial = U has diagnostics and (a filter removes something, or the cwd is not the root, or the spelling is not plain relative)",
+		Assumptions: []string{
+			"reference model: expected(F) = U minus diagnostics whose message matches a -ignore pattern or a pattern of a paths entry whose glob (doublestar) matches the file path relative to the root of the containing repository; exit 1 iff non-empty, 0 iff empty",
+			"U is obtained from the same code with no -ignore flag and the paths section removed from the config: the oracle decides filtering and cwd/spelling independence, not what the unfiltered diagnostics are",
+			"when getwd fails printed paths cannot be resolved; diagnostics are then compared modulo the directory part of the path",
+		},
+	},
 }
